@@ -179,6 +179,9 @@ def _pack_and_check(gdf, gcols, ocols, spec, k, p, expected, ref, fails, labels,
     if len(parts) != k:
         how = 'fewer-than-requested' if len(parts) < k else 'more-than-requested'
         labels.append('partitions:' + how)
+        if len(parts) < k:
+            labels.append('fewer-partitions:frame-has->=k-distinct-distances' if len(set(ref.values())) >= k
+                          else 'fewer-partitions:frame-has-<k-distinct-distances')
         fails.append((['C09', 'npartitions', 'materialised', how],
                       f'requested {k}, result.npartitions={res.npartitions}, divisions={[None if d is None else int(d) for d in res.divisions]}, '
                       f'materialised partitions={len(parts)} with sizes {[len(x) for x in parts]}; {detail}'))
@@ -263,7 +266,7 @@ def frames(draw, max_rows=24, max_geoms=3):
         kind = draw(st.sampled_from(model.KINDS))
         subtype = draw(gen.subtypes)
         spread = draw(st.booleans())
-        miss_rate = draw(st.sampled_from([0, 0, 1, 2]))     # out of 16: share of missing rows, and of empty rows
+        miss_rate = draw(st.sampled_from([0, 1, 0, 2, 0]))     # out of 16: share of missing rows, and of empty rows
         dup_rate = draw(st.sampled_from([0, 2, 2, 6]))          # out of 16: share of rows repeating an earlier element
         els = []
         for _ in range(n):
@@ -303,12 +306,14 @@ def partitionings(draw, n, max_parts=5):
 
 @st.composite
 def _case(draw):
+    # configuration first, the (large) frame last: draws made after a large amount of data are less evenly spread
+    k = draw(st.one_of(st.sampled_from(range(1, 9)), st.sampled_from(range(2, 5))))
+    p = draw(st.one_of(st.sampled_from(range(1, 21)), st.sampled_from(range(4, 21)), st.sampled_from(range(1, 4))))
+    presort = draw(st.sampled_from(range(4))) == 0
     fr = draw(frames())
     n = fr['n']
-    return {'frame': fr, 'presort': draw(st.sampled_from(range(4))) == 0,
-            'parts_a': draw(partitionings(n)), 'parts_b': draw(partitionings(n)),
-            'npartitions': draw(st.one_of(st.sampled_from(range(1, 9)), st.integers(2, 4))),
-            'p': draw(st.one_of(st.sampled_from(range(1, 21)), st.integers(1, 4)))}
+    return {'frame': fr, 'presort': presort, 'parts_a': draw(partitionings(n)), 'parts_b': draw(partitionings(n)),
+            'npartitions': k, 'p': p}
 
 
 def strategy(tier):
